@@ -122,6 +122,12 @@ func TestReplay(t *testing.T) {
 		t.Fatal(err)
 	}
 	defer out.Close()
+	// every case is replayed twice in this process, the second time in reverse order: the outcome of a case is a function of the
+	// case, not of what the process did before (memos, pools and lazily built tables keyed by too little would show here)
+	n0 := len(cases)
+	for k := n0 - 1; k >= 0; k-- {
+		cases = append(cases, cases[k])
+	}
 	for i, c := range cases {
 		var probs []string
 		switch c.Kind {
@@ -227,7 +233,7 @@ func TestReplay(t *testing.T) {
 			out.Emit(map[string]any{"case": i, "c": c, "problems": probs})
 		}
 	}
-	out.Emit(map[string]any{"summary": true, "cases": len(cases)})
+	out.Emit(map[string]any{"summary": true, "cases": n0})
 }
 
 // ---------------------------------------------------------------- TestDynamic (spec/RegistryDyn.tla)
